@@ -216,6 +216,8 @@ def prog_history(kit, actor, doc, elem, cfg):
         if rng.random() < 0.6:
             yield from complete(kit, actor, w.path_of(root) or [doc], root)
         yield {'op': 'TO_STRING', 'a': actor, 'p': [doc], 'ic': rng.random() < cfg.get('p_ic', 0.25)}
+        if elem == 'score-partwise' and rng.random() < 0.7:
+            yield {'op': 'WRITE', 'a': actor, 'doc': doc, 'path': doc + '.xml', 'ic': rng.random() < cfg.get('p_ic', 0.25)}
 
 
 def _focus(kit, root, cfg):
